@@ -19,6 +19,13 @@ whether the BCD+ branch converts `self.raw` before `.decode`, and for fru.py
   'areaLenForm'   'lax' (as shipped: checksum over data[:length] straight away) | 'checked'
                   (`if self.length == 0 or len(data) < self.length: raise DecodingError`)
   'devLenForm'    'lax' (as shipped) | 'checked' (`if count == 0: raise DecodingError` in _read_fru_area)
+  'fieldsForm'    'lax' (as shipped: the info-area classes decode from everything they were handed) | 'confined'
+                  (CommonInfoArea._from_data returns `data[:self.length - 1]`, the three sub-classes decode from
+                  that, FruTypeLengthString.__init__ and _decode_custom_fields raise DecodingError outside the data)
+  'layoutForm'    'none' (as shipped) | 'checked' (`_check_area_layout(self.common_header, self)` ends
+                  FruInventory._from_data)
+  'devLayoutForm' 'none' (as shipped) | 'checked' (`_check_area_layout(header, fru)` before `return fru` in
+                  Fru.get_fru_inventory)
 each of them is compared with a probe of the running code by props/c15.py.
 """
 import ast
@@ -321,6 +328,9 @@ def _area_len_form(tree):
     if idx is None:
         raise TieBroken('CommonInfoArea._from_data: `self.length = data[1] * 8` not found')
     rest = fn.body[idx + 1:]
+    if rest and isinstance(rest[-1], ast.Return):
+        # fixes/C15-4.diff: `return data[:self.length - 1]` (read by _fields_form)
+        rest = rest[:-1]
 
     def is_sum_test(n):
         # if sum(data[:self.length]) % 256 != 0: raise DecodingError
@@ -374,6 +384,171 @@ def _dev_len_form(tree):
                     '`if count == 0: raise DecodingError` + `return read`')
 
 
+def _is_confined_slice(node):
+    """`data[:self.length - 1]`"""
+    return isinstance(node, ast.Subscript) and _is_name(node.value, 'data') and isinstance(node.slice, ast.Slice) \
+        and node.slice.lower is None and node.slice.step is None and isinstance(node.slice.upper, ast.BinOp) \
+        and isinstance(node.slice.upper.op, ast.Sub) and _self_attr(node.slice.upper.left, 'length') \
+        and _int(node.slice.upper.right) == 1
+
+
+def _no_doc(body):
+    return [n for n in body if not (isinstance(n, ast.Expr) and isinstance(n.value, ast.Constant))]
+
+
+def _fields_form(t_fields, t_fru):
+    """-> ('lax', None) | ('confined', mask of the FruTypeLengthString guard)"""
+    votes = []
+    # 1. FruTypeLengthString.__init__: [guard +] super().__init__(...)
+    fn = _func(t_fields, '__init__', 'FruTypeLengthString')
+    body = _no_doc(fn.body)
+    mask = None
+    if len(body) == 1 and isinstance(body[0], ast.Expr) and isinstance(body[0].value, ast.Call):
+        votes.append(False)
+    elif len(body) == 2 and isinstance(body[0], ast.If) and isinstance(body[1], ast.Expr):
+        g = body[0]
+        ok = not g.orelse and _raises_decoding_error(g.body) and isinstance(g.test, ast.BoolOp) \
+            and isinstance(g.test.op, ast.And) and len(g.test.values) == 2
+        if ok:
+            a, b = g.test.values
+            ok = _cmp(a, ast.IsNot) and _is_name(a.left, 'data') and isinstance(a.comparators[0], ast.Constant) \
+                and a.comparators[0].value is None and isinstance(b, ast.BoolOp) and isinstance(b.op, ast.Or) \
+                and len(b.values) == 2
+        if ok:
+            c, d = b.values
+            ok = _cmp(c, ast.GtE) and _is_name(c.left, 'offset') and _len_data(c.comparators[0]) \
+                and _cmp(d, ast.Gt) and _len_data(d.comparators[0])
+        if ok:
+            e = d.left      # offset + 1 + (data[offset] & M)
+            ok = isinstance(e, ast.BinOp) and isinstance(e.op, ast.Add) and isinstance(e.left, ast.BinOp) \
+                and isinstance(e.left.op, ast.Add) and _is_name(e.left.left, 'offset') and _int(e.left.right) == 1 \
+                and isinstance(e.right, ast.BinOp) and isinstance(e.right.op, ast.BitAnd) \
+                and isinstance(e.right.left, ast.Subscript) and _is_name(e.right.left.value, 'data') \
+                and _is_name(e.right.left.slice, 'offset')
+        if not ok:
+            raise TieBroken('FruTypeLengthString.__init__: the guard is not `if data is not None and (offset >= len(data) '
+                            'or offset + 1 + (data[offset] & M) > len(data)): raise DecodingError`')
+        mask = _int(e.right.right)
+        votes.append(True)
+    else:
+        raise TieBroken('FruTypeLengthString.__init__ is neither the bare super().__init__ call nor guard + call')
+    # 2. _decode_custom_fields: `while data[offset] != CUSTOM_FIELD_END:` | `while True: if offset >= len(data): raise; if
+    #    data[offset] == CUSTOM_FIELD_END: break; ...`
+    fn = _func(t_fru, '_decode_custom_fields')
+    loops = [n for n in fn.body if isinstance(n, ast.While)]
+    if len(loops) != 1:
+        raise TieBroken('_decode_custom_fields: expected exactly one while loop')
+    w = loops[0]
+
+    def at_offset(n):
+        return isinstance(n, ast.Subscript) and _is_name(n.value, 'data') and _is_name(n.slice, 'offset')
+    if _cmp(w.test, ast.NotEq) and at_offset(w.test.left) and _is_name(w.test.comparators[0], 'CUSTOM_FIELD_END'):
+        if len(w.body) != 3:
+            raise TieBroken('_decode_custom_fields: loop body outside the grammar')
+        votes.append(False)
+    elif isinstance(w.test, ast.Constant) and w.test.value is True and len(w.body) == 5:
+        g1, g2 = w.body[0], w.body[1]
+        ok = isinstance(g1, ast.If) and not g1.orelse and _raises_decoding_error(g1.body) and _cmp(g1.test, ast.GtE) \
+            and _is_name(g1.test.left, 'offset') and _len_data(g1.test.comparators[0]) \
+            and isinstance(g2, ast.If) and not g2.orelse and len(g2.body) == 1 and isinstance(g2.body[0], ast.Break) \
+            and _cmp(g2.test, ast.Eq) and at_offset(g2.test.left) and _is_name(g2.test.comparators[0], 'CUSTOM_FIELD_END')
+        if not ok:
+            raise TieBroken('_decode_custom_fields: `while True` loop without the two known guards')
+        votes.append(True)
+    else:
+        raise TieBroken('_decode_custom_fields: loop is neither `while data[offset] != CUSTOM_FIELD_END` nor the guarded '
+                        '`while True`')
+    # 3. CommonInfoArea._from_data ends with `return data[:self.length - 1]` (or returns nothing)
+    fn = _func(t_fru, '_from_data', 'CommonInfoArea')
+    rets = [n for n in ast.walk(fn) if isinstance(n, ast.Return)]
+    if not rets:
+        votes.append(False)
+    elif len(rets) == 1 and fn.body[-1] is rets[0] and _is_confined_slice(rets[0].value):
+        votes.append(True)
+    else:
+        raise TieBroken('CommonInfoArea._from_data: return statement other than a final `return data[:self.length - 1]`')
+    # 4. the three sub-classes: `CommonInfoArea._from_data(self, data)` as a statement | `data = ...`
+    for cls in ('InventoryChassisInfoArea', 'InventoryBoardInfoArea', 'InventoryProductInfoArea'):
+        fn = _func(t_fru, '_from_data', cls)
+        st = _no_doc(fn.body)[0]
+
+        def base_call(v):
+            return isinstance(v, ast.Call) and isinstance(v.func, ast.Attribute) and v.func.attr == '_from_data' \
+                and _is_name(v.func.value, 'CommonInfoArea') and len(v.args) == 2 and _is_name(v.args[0], 'self') \
+                and _is_name(v.args[1], 'data')
+        if isinstance(st, ast.Expr) and base_call(st.value):
+            votes.append(False)
+        elif isinstance(st, ast.Assign) and len(st.targets) == 1 and _is_name(st.targets[0], 'data') and base_call(st.value):
+            votes.append(True)
+        else:
+            raise TieBroken('%s._from_data does not start with [data =] CommonInfoArea._from_data(self, data)' % cls)
+    if all(votes):
+        return 'confined', mask
+    if not any(votes):
+        return 'lax', None
+    raise TieBroken('info-area fields: a mixture of the shipped and the confined form (FruTypeLengthString guard, '
+                    '_decode_custom_fields, CommonInfoArea return, three sub-classes: %s)' % votes)
+
+
+_LAYOUT_SRC = '''
+def _check_area_layout(header, fru):
+    starts = (header.internal_use_area_offset,
+              header.chassis_info_area_offset,
+              header.board_info_area_offset,
+              header.product_info_area_offset,
+              header.multirecord_area_offset)
+    records = getattr(fru.multirecord_area, 'records', ())
+    lengths = (0,
+               getattr(fru.chassis_info_area, 'length', 0),
+               getattr(fru.board_info_area, 'length', 0),
+               getattr(fru.product_info_area, 'length', 0),
+               sum(record.length + 5 for record in records))
+    for i, start in enumerate(starts):
+        for j, other in enumerate(starts):
+            if (i != j and start and other
+                    and start <= other < start + lengths[i]):
+                raise DecodingError('FRU areas overlap')
+'''
+
+
+def _layout_forms(t_fru):
+    """-> (layoutForm, devLayoutForm): 'none' | 'checked'"""
+    def is_call(n, a0, a1):
+        if not (isinstance(n, ast.Expr) and isinstance(n.value, ast.Call) and _is_name(n.value.func, '_check_area_layout')
+                and len(n.value.args) == 2 and not n.value.keywords):
+            return False
+        x, y = n.value.args
+        return a0(x) and a1(y)
+
+    def calls(fn):
+        return [n for n in ast.walk(fn) if isinstance(n, ast.Call) and _is_name(n.func, '_check_area_layout')]
+    fn = _func(t_fru, '_from_data', 'FruInventory')
+    if not calls(fn):
+        file_form = 'none'
+    elif len(calls(fn)) == 1 and is_call(fn.body[-1], lambda x: _self_attr(x, 'common_header'), lambda y: _is_name(y, 'self')):
+        file_form = 'checked'
+    else:
+        raise TieBroken('FruInventory._from_data: _check_area_layout is not called as its last statement with '
+                        '(self.common_header, self)')
+    fn = _func(t_fru, 'get_fru_inventory', 'Fru')
+    if not calls(fn):
+        dev_form = 'none'
+    elif len(calls(fn)) == 1 and len(fn.body) >= 2 and isinstance(fn.body[-1], ast.Return) and _is_name(fn.body[-1].value, 'fru') \
+            and is_call(fn.body[-2], lambda x: _is_name(x, 'header'), lambda y: _is_name(y, 'fru')):
+        dev_form = 'checked'
+    else:
+        raise TieBroken('Fru.get_fru_inventory: _check_area_layout(header, fru) does not stand right before `return fru`')
+    if 'checked' in (file_form, dev_form):
+        fn = _func(t_fru, '_check_area_layout')
+        got = ast.dump(ast.Module(body=_no_doc(fn.body), type_ignores=[]))
+        ref = ast.dump(ast.Module(body=ast.parse(_LAYOUT_SRC).body[0].body, type_ignores=[]))
+        args = [a.arg for a in fn.args.args]
+        if got != ref or args != ['header', 'fru']:
+            raise TieBroken('_check_area_layout differs from the known form (five header offsets; lengths 0 / area.length / '
+                            'sum(record.length + 5); `i != j and start and other and start <= other < start + lengths[i]`)')
+    return file_form, dev_form
+
+
 def extract():
     import pyipmi.utils as utils
     import pyipmi.fields as fields
@@ -390,6 +565,8 @@ def extract():
     picmg_len = _own_len_guard(t_fru, 'FruPicmgRecord')
     power_len = _own_len_guard(t_fru, 'FruPicmgPowerModuleCapabilityRecord')
     mfg = getattr(fru.FruPicmgRecord, 'PICMG_MANUFACTURER_ID', None)
+    fields_form, field_mask = _fields_form(t_fields, t_fru)
+    layout_form, dev_layout_form = _layout_forms(t_fru)
     if dform == 'mfg-id':
         if not isinstance(mfg, int) or isinstance(mfg, bool) or picmg_len is None or power_len is None:
             raise TieBroken('create_from_record_id compares the manufacturer id but PICMG_MANUFACTURER_ID or the '
@@ -420,6 +597,8 @@ def extract():
         'picmgMinLen': picmg_len, 'powerMinLen': power_len,
         'areaLenForm': _area_len_form(t_fru),
         'devLenForm': _dev_len_form(t_fru),
+        'fieldsForm': fields_form, 'fieldLenMask': field_mask,
+        'layoutForm': layout_form, 'devLayoutForm': dev_layout_form,
     }
     return consts
 
@@ -471,17 +650,24 @@ def render(c):
         'def dispatchMinLen : Option Nat := %s' % opt(c['dispatchMinLen']),
         'def picmgMinLen : Option Nat := %s' % opt(c['picmgMinLen']),
         'def powerMinLen : Option Nat := %s' % opt(c['powerMinLen']),
+        '/-- FruTypeLengthString.__init__ `offset + 1 + (data[offset] & M) > len(data)` (none: no such guard) -/',
+        'def fieldLenMask : Option Nat := %s' % opt(c['fieldLenMask'], '0x%x'),
         '',
-        '/-- which of the two known FORMS each of the five repaired places has in this tree, as read from the AST',
+        '/-- which of the two known FORMS each of the eight repaired places has in this tree, as read from the AST',
         '(true = the form of the pinned tree): TypeLengthString BCD+ branch decodes `self.raw` without converting it to',
         'bytes; _unpack6bitascii indexes d[1], d[2] unguarded; CommonInfoArea._from_data sums data[:length] without',
         'checking the length byte; Fru._read_fru_area returns the read without checking count; create_from_record_id',
-        'tests `data[0] == TYPE_OEM_PICMG` only.  (Fields of Model/FruParse.Variant, in its order.) -/',
+        'tests `data[0] == TYPE_OEM_PICMG` only; the info-area classes decode their fields from everything they were',
+        'handed (no `return data[:self.length - 1]`, no DecodingError for a field outside the data); FruInventory._from_data',
+        '/ Fru.get_fru_inventory do not call _check_area_layout.  (Fields of Model/FruParse.Variant, in its order.) -/',
         'def bcdBytesOnly : Bool := %s' % ('false' if c['bcdConverts'] else 'true'),
         'def sixStrict : Bool := %s' % ('true' if c['sixForm'] == 'strict' else 'false'),
         'def areaLenLax : Bool := %s' % ('true' if c['areaLenForm'] == 'lax' else 'false'),
         'def devLenLax : Bool := %s' % ('true' if c['devLenForm'] == 'lax' else 'false'),
         'def picmgTypeOnly : Bool := %s' % ('true' if c['dispatchForm'] == 'type-only' else 'false'),
+        'def fieldsLax : Bool := %s' % ('true' if c['fieldsForm'] == 'lax' else 'false'),
+        'def overlapLax : Bool := %s' % ('true' if c['layoutForm'] == 'none' else 'false'),
+        'def devOverlapLax : Bool := %s' % ('true' if c['devLayoutForm'] == 'none' else 'false'),
         '',
         'end PyIpmi.Gen.FruTables',
         '',
